@@ -58,6 +58,7 @@ end IntKind
 /-- a float64 (or float32) value: `fin m e` is the real number `m · 2^e` -/
 inductive Num where
   | fin (m e : Int)
+  | negZero                  -- -0.0 (`fin 0 e` is +0.0)
   | nan
   | inf (neg : Bool)
   deriving DecidableEq, Repr, Inhabited
@@ -80,6 +81,7 @@ namespace Num
 /-- Go's `intN(f)` / `uintN(f)` before the range question: truncation towards zero -/
 def trunc : Num → Option Int
   | fin m e => some (if 0 ≤ e then m * (2 : Int) ^ e.toNat else m.tdiv ((2 : Int) ^ (-e).toNat))
+  | negZero => some 0
   | _ => none
 
 /-- the float64 denotes exactly the integer `n` -/
@@ -92,12 +94,32 @@ def ofInt (n : Int) : Num :=
     let r := roundSig 53 n 0
     fin r.1 r.2
 
-/-- `float32(f)`: significand rounded to 24 bits, overflow to ±Inf (the subnormal
-    range of float32 is not modelled: no property statement depends on it) -/
+/-- round `m·2^e` to a multiple of `2^E` (for `E > e`), ties to even: the new significand -/
+def roundToExp (m : Int) (sh : Nat) : Int :=
+  let a := m.natAbs
+  let q := a / 2 ^ sh
+  let r := a % 2 ^ sh
+  let half := 2 ^ (sh - 1)
+  let q' := if r > half || (r == half && q % 2 == 1) then q + 1 else q
+  if m < 0 then -(q' : Int) else (q' : Int)
+
+/-- the exponent of the last bit float32 keeps for `m·2^e`: 24 significant bits, but never below
+    2^-149 (the subnormal range) -/
+def f32Exp (m e : Int) : Int :=
+  let l : Int := bitLen m.natAbs
+  let en := if l > 24 then e + (l - 24) else e
+  if en < -149 then -149 else en
+
+/-- `float32(f)` (IEEE round to nearest even): exact when the value fits, rounded to 24 bits / to a
+    multiple of 2^-149 otherwise, overflow to ±Inf, underflow to ±0 -/
 def toF32 : Num → Num
   | fin m e =>
-    let r := roundSig 24 m e
-    if (bitLen r.1.natAbs : Int) + r.2 > 128 then inf (decide (m < 0)) else fin r.1 r.2
+    let E := f32Exp m e
+    if E ≤ e then (if (bitLen m.natAbs : Int) + e > 128 then inf (decide (m < 0)) else fin m e)
+    else
+      let q := roundToExp m (E - e).toNat
+      if q = 0 then (if m < 0 then negZero else fin 0 0)
+      else if (bitLen q.natAbs : Int) + E > 128 then inf (decide (m < 0)) else fin q E
   | x => x
 end Num
 
@@ -258,6 +280,9 @@ def callCheck (sig : Sig) (fargs : List Val) : Bool :=
 inductive BodyOut where
   | ret (vals : List Val)
   | panic
+  | panicNil      -- a panic for which `recover()` returns nil: `panic(nil)` in a binary whose main module
+                  -- declares go < 1.21 (GODEBUG panicnil=1). With go >= 1.21 semantics `panic(nil)` is an
+                  -- ordinary `panic` (of a *runtime.PanicNilError).
   deriving Repr
 
 /-- `float64(v.Int())`, `float64(v.Uint())`, `v.Float()` for a value of a static type of numeric Kind -/
@@ -268,9 +293,11 @@ def numericOf : Ty → Val → Option Num
   | .named _ u, .named _ w => numericOf u w
   | _, _ => none
 
-/-- `convertResultNumber`: switch over `v.Kind()`, the kind of the *static* result type -/
+/-- `convertResultNumber`: switch over `v.Kind()`, the kind of the *static* result type; for a result
+    declared as an interface (every plugin function: `(interface{}, error)`) the kind of the value in it -/
 def convertResultNumber (static : Ty) (v : Val) : Val :=
-  match numericOf static v with
+  let t := if static.isInterface then v.ty.getD static else static
+  match numericOf t v with
   | some x => .f64 x
   | none => v
 
@@ -312,6 +339,7 @@ inductive Target where
 inductive Raw where
   | ret (r : Ret) (err : Option Err)
   | panic
+  | panicNil
   deriving Repr
 
 def runRaw (checked : Bool) (oob : IntKind → Num → Int) : Target → List Val → Raw
@@ -324,6 +352,7 @@ def runRaw (checked : Bool) (oob : IntKind → Num → Int) : Target → List Va
       if callCheck sig fargs then
         match body fargs with
         | .panic => .panic
+        | .panicNil => .panicNil
         | .ret vals =>
           let r := convertResults vals sig.results
           .ret (packRet r.1) r.2
@@ -351,6 +380,9 @@ structure Shape where
   /-- before reflect's `Call` the number of arguments is compared with `NumIn()` and surplus
       arguments end in a returned error (in `Run` or in a helper it calls before `Call`) -/
   arityChecked : Bool
+  /-- the deferred function reports a panic also when `recover()` returned nil (it tests a completion
+      flag of `Run`, not only `recovered != nil`) -/
+  nilPanicReported : Bool
   deriving DecidableEq, Repr
 
 inductive Outcome where
@@ -362,6 +394,12 @@ def run (shape : Shape) (oob : IntKind → Num → Int) (t : Target) (args : Lis
   match runRaw shape.arityChecked oob t args with
   | .ret r e => .done r e
   | .panic => if shape.recovers then .done (.one .nil) (some .recovered) else .escaped
+  | .panicNil =>
+    if shape.recovers then
+      -- recover() stops the panic but returns nil: `if r != nil` alone does not notice it and `Run`
+      -- returns its zero results (nil, nil) — a silent NULL
+      (if shape.nilPanicReported then .done (.one .nil) (some .recovered) else .done (.one .nil) none)
+    else .escaped
 
 /-! ## `executeFunction` (interpreter/rt_identifier.go): how an ECAL program sees the call -/
 
@@ -369,11 +407,30 @@ inductive Seen where
   | value (r : Ret)
   | runtimeError            -- a `*util.RuntimeError` (the bridge's error wrapped, catchable by try/except)
   | crash
-  deriving Repr
+  deriving DecidableEq, Repr
 
-def executeFunction : Outcome → Seen
+/-- what `executeFunction` can run into when it handles the error value a Go function returned -/
+inductive ErrKind where
+  | plain             -- any error value whose `Error()` returns
+  | errorPanics       -- `Error()` panics: a nil pointer whose method dereferences it (the typed-nil slip), a broken implementation
+  | runtimeError      -- a proper `*util.RuntimeError` / `*util.RuntimeErrorWithDetail`: passed on, `AddTrace` called
+  | nilRuntimeError   -- a nil `*util.RuntimeError` / `*util.RuntimeErrorWithDetail`: `AddTrace` dereferences it
+  deriving DecidableEq, Repr
+
+/-- `executeFunction` after `funcObj.Run` returned — the code runs OUTSIDE `Run`'s recover scope:
+    `err.Error()` (twice) for an error that is no runtime error, `AddTrace` for one that is.
+    `guarded` (regenerated source fact `Gen.C19.errorValueFact`): `Error()` is only called under a
+    recover of its own and nil runtime-error pointers are treated like any other error value. -/
+def executeFunction (guarded : Bool) (kind : Val → ErrKind) : Outcome → Seen
   | .done r none => .value r
-  | .done _ (some _) => .runtimeError
+  | .done _ (some (.bridge _)) => .runtimeError      -- fmt.Errorf values made by the adapter
+  | .done _ (some .recovered) => .runtimeError
+  | .done _ (some (.func e)) =>
+    match kind e with
+    | .plain => .runtimeError
+    | .runtimeError => .runtimeError
+    | .errorPanics => if guarded then .runtimeError else .crash
+    | .nilRuntimeError => if guarded then .runtimeError else .crash
   | .escaped => .crash
 
 end Ecal.Bridge
@@ -388,6 +445,10 @@ def reaches (oob : IntKind → Num → Int) (sig : Sig) (args : List Val) : Opti
 /-- what `Run` returns once the function body has been reached with `f` -/
 def finish (shape : Shape) (sig : Sig) : BodyOut → Outcome
   | .panic => if shape.recovers then .done (.one .nil) (some .recovered) else .escaped
+  | .panicNil =>
+    if shape.recovers then
+      (if shape.nilPanicReported then .done (.one .nil) (some .recovered) else .done (.one .nil) none)
+    else .escaped
   | .ret vals => .done (packRet (convertResults vals sig.results).1) (convertResults vals sig.results).2
 
 /-- property-level notion "an argument of the right kind for this parameter": an ECAL number for
@@ -414,6 +475,7 @@ def runPlugin (viaAdapter : Bool) (shape : Shape) (oob : IntKind → Num → Int
   else
     match body args with
     | .panic => .escaped
+    | .panicNil => .escaped
     | .ret vals => .done (.one (vals.headD .nil))
         (match vals.drop 1 with | e :: _ => if e = .nil then none else some (.func e) | [] => none)
 
